@@ -7,6 +7,7 @@ BOUNDED stand-in (stated bound, never counted as unbounded proof): buffers of at
 most MAXB bytes in total; segment sizes, contents, sequence numbers symbolic.  Within the bound every loop is
 unrolled completely, so the check is exhaustive for those sizes.  handle_packet (dedupe) is unbounded."""
 from pyvc.api import harness, len_, ite, eq, band, bor, bnot, implies, be, cat, const
+from contracts.common import full_session
 
 SE = "tlexport.session.Session"
 import os as _os
@@ -51,8 +52,8 @@ def h_extract(c, direction, npk):
         for j in range(i + 1, npk):
             c.assume(c.get(pkts[i], "seq") != c.get(pkts[j], "seq"))
     order = list(pkts)
-    s = c.obj(SE, server_packet_buffer=[], client_packet_buffer=[], server_tls_records=[], client_tls_records=[],
-              server_counter=0, client_counter=0)
+    s = full_session(c, server_packet_buffer=[], client_packet_buffer=[], server_tls_records=[], client_tls_records=[],
+                     server_counter=0, client_counter=0)
     c.set(s, buf_attr, list(order))
     pre_records = [c.opaque("earlier_record")]
     c.set(s, rec_attr, list(pre_records))
@@ -122,9 +123,9 @@ def h_dedupe(c, direction):
     seen_own = [c.int("seen%d" % i, 0, 2 ** 32 - 1) for i in range(3)]
     seen_other = [c.int("other%d" % i, 0, 2 ** 32 - 1) for i in range(2)]
     earlier = [c.opaque("p0"), c.opaque("p1")]
-    s = c.obj(SE, server_ip=sip, client_ip=cip, server_port=sp, client_port=cp,
-              seen_packets_server=list(seen_own if direction == "server" else seen_other),
-              seen_packets_client=list(seen_other if direction == "server" else seen_own), packet_buffer=list(earlier))
+    s = full_session(c, server_ip=sip, client_ip=cip, server_port=sp, client_port=cp,
+                     seen_packets_server=list(seen_own if direction == "server" else seen_other),
+                     seen_packets_client=list(seen_other if direction == "server" else seen_own), packet_buffer=list(earlier))
     seq = c.int("seq", 0, 2 ** 32 - 1)
     if direction == "server":
         pkt = c.obj("tlexport.packet.Packet", seq=seq, ip_src=sip, sport=sp, ip_dst=cip, dport=cp)
@@ -147,17 +148,17 @@ def h_dedupe(c, direction):
 
 
 def early_at_empty(c, perm, cuts, S, total):
-    """region of the open finding: at some point a segment arrives while the direction's buffer is empty and it does
-    not start where the data released so far ended (the code then frames it as if it began a record)"""
+    """region of the open finding, computed by running the reassembly policy on the ghost description: some release happens from a
+    buffer that does NOT start where the data released so far ended - an early segment arrived while the buffer was empty, and the bytes
+    buffered from it on happen to parse as complete records (framed as if the early segment began a record).  Histories in which an
+    early segment merely WAITS in the buffer until the missing one arrives are outside the region: there the property is claimed."""
     pos, buf = 0, []
     for a in perm:
-        if not buf and c.truth_fork(cuts[a] != pos):
-            return True
         buf = sorted(buf + [a])
         if any(y != x + 1 for x, y in zip(buf, buf[1:])):
             continue                       # a gap inside the buffer: the code waits
-        end = cuts[buf[-1] + 1]
-        idx = pos                           # the buffer starts at a true boundary here
+        start, end = cuts[buf[0]], cuts[buf[-1] + 1]
+        idx = start                         # the code frames from the first buffered byte, wherever that is
         done = False
         for _ in range(MAXB // 5 + 2):
             if c.truth_fork(idx == end):
@@ -169,6 +170,8 @@ def early_at_empty(c, perm, cuts, S, total):
             if c.truth_fork(idx > end):
                 break
         if done:
+            if c.truth_fork(start != pos):
+                return True                 # released from a misaligned buffer: the recorded finding
             pos, buf = end, []
     return False
 
@@ -201,9 +204,9 @@ def h_history(c, direction, npk, perm):
         c.cover("inside_region_of_known_finding")
         return      # inside the region of the recorded finding (re-confirmed natively by the check); everything
                     # OUTSIDE the region is still proved below
-    s = c.obj(SE, server_ip=sip, client_ip=cip, server_port=443, client_port=50000, packet_buffer=[segs[i] for i in perm],
-              server_packet_buffer=[], client_packet_buffer=[], server_tls_records=[], client_tls_records=[],
-              server_counter=0, client_counter=0)
+    s = full_session(c, server_ip=sip, client_ip=cip, server_port=443, client_port=50000, packet_buffer=[segs[i] for i in perm],
+                     server_packet_buffer=[], client_packet_buffer=[], server_tls_records=[], client_tls_records=[],
+                     server_counter=0, client_counter=0)
     delivered = []
     c.summary_override(SE + ".handle_tls_record", lambda ctx, slf, record, isserver: delivered.append((record, isserver)))
     out = c.method(s, "get_tls_records")
